@@ -428,6 +428,8 @@ FIXED = [
     ("directive-null-variable-list", "query($v: Boolean = true){ ns { id t @skip(if:$v) } s }", {"v": None}),
     ("directive-null-variable-abstract-item", "query($v: Boolean = true){ ns { __typename ... on Other { c @skip(if: $v) } } u { ... on Ob { id @skip(if: $v) } } }", {"v": None}),
     ("directive-null-variable-fragment", "query($v: Boolean = true){ b { ...F } a } fragment F on Ob { id b { a @include(if:$v) } }", {"v": None}),
+    ("directive-null-variable-spread-twice", "query($v: Boolean = true){ b { ... on Ob { ...F } ...F id } a } fragment F on Ob { id a @skip(if:$v) }", {"v": None}),
+    ("directive-null-variable-spread-nested-quirk", "query($v: Boolean = true){ ... on Query { ...Q } ...Q } fragment Q on Query { b { ...F ... { ...F } } } fragment F on Ob { b { id @include(if:$v) } }", {"v": None}),
     ("directive-null-variable-inline", "query($v: Boolean = true){ n { ... on Node @skip(if:$v) { id } } a }", {"v": None}),
     ("directive-null-variable-default-used", "query($v: Boolean = true){ b @skip(if:$v) { id } a }", {}),
     ("list-literal-at-scalar-argument", "{ a(i: [1]) }", {}),
